@@ -102,6 +102,18 @@ type (
 	}
 )
 
+// Validate validates the spec: what newBroker cannot start with must be
+// rejected here, not by a panic in Init.
+func (spec *Spec) Validate() error {
+	if spec.UseTLS {
+		if _, err := spec.tlsConfig(); err != nil {
+			return err
+		}
+	}
+	_, err := getPipelineMap(spec)
+	return err
+}
+
 func (spec *Spec) tlsConfig() (*tls.Config, error) {
 	var certificates []tls.Certificate
 
